@@ -311,3 +311,51 @@ def same_text_cases():
         out.append("ALG %s 1 PROGS %s=%s,%s=%s,%s=%s NF sp:%s:-,sp:%s:-,sp:%s:- OR - SCRIPT 5:RD.1 %s X"
                    % (hx("reno"), na, hx(P2), nb, hx(P2), nc, hx(P1), na, nb, nc, cr(1, "reno")))
     return out
+
+
+def long_fault_runs(lengths=(63, 64, 65, 66, 100, 129, 300)):
+    """histories in which `recv` fails MANY times in a row between two messages (round 5: a give-up counter after 64 failed
+    reads, a back-off whose shift overflows at the 65th): the runtime must keep serving - a failed read is 'nothing right now'
+    for every transport but the in-process channel - and the later report and close must still reach the handler"""
+    for n in lengths:
+        for sf in ("", " SF1"):
+            yield ("ALG - 1 PROGS p1=%s NF sp:p1:- OR gf:%s SCRIPT 5:RD.1 5:CR.1.10.1460.1.2.3.4.- 5:MS.1.u:p1.7;9 %s%s 5:MS.1.u:p1.8;10 "
+                   "6:CR.1.10.1460.1.2.3.4.- %s 5:MS.1.u:p1.- 6:MS.1.u:p1.1;2"
+                   % (hx(P1), hx("Report.acked"), " ".join(["E"] * n), sf, " ".join(["E"] * (n // 2))))
+
+
+PINF = ("(def (Report (volatile acked 0)) (cinf +infinity) (volatile vinf +infinity) (cmax 2147483647) (cb true) (cf false) (cz 0) (cn other)) "
+        "(when true (:= Report.acked (+ Report.acked Ack.bytes_acked)) (report))")
+
+
+def declared_kind_value_cases():
+    """'values as asked' must not depend on how the control was DECLARED (round 5: a control declared +infinity and updated with
+    exactly 2^32-1 was widened to 2^64-1): every kind of declared initial value x every boundary value, as set_program presets and
+    as update_field, one field at a time and all together"""
+    names = ["cinf", "vinf", "cmax", "cb", "cf", "cz", "cn", "Cwnd", "Rate"]
+    vals = [0, 1, 2**31 - 1, 2**31, 2**32 - 2, 2**32 - 1]
+    for v in vals:
+        allf = ";".join("%s=%d" % (hx(n), v) for n in names)
+        yield ("ALG - 1 PROGS p=%s NF sp:p:%s OR uf:%s SCRIPT 5:RD.1 5:CR.1.10.1460.1.2.3.4.- 5:MS.1.u:p.7 5:MS.1.u:p.-" % (hx(PINF), allf, allf))
+        for n in names:
+            one = "%s=%d" % (hx(n), v)
+            yield ("ALG - 1 PROGS p=%s NF sp:p:%s OR uf:%s,sp:p:%s SCRIPT 5:RD.1 5:CR.1.10.1460.1.2.3.4.- 5:MS.1.u:p.7 5:MS.1.u:p.-" % (hx(PINF), one, one, one))
+
+
+def stop_from_callback_cases():
+    """the stop is requested from INSIDE a callback (policy command `st`), while the datagram being processed still holds further
+    messages (round 5: `next()` started to poll the flag between the messages of one read and the bytes left over were then taken
+    for a malformed message: `run` returned Err although a stop was requested and every message was well formed). The loop polls
+    the flag only before a receive, so the rest of the datagram is dispatched and the run ends Ok (C18.dispatch_after_stop_bounded);
+    the `X` right after the datagram is where the model learns of the request."""
+    p1, acked = hx(P1), hx("Report.acked")
+    head = "ALG - 1 PROGS p1=%s NF sp:p1:- OR st,gf:%s SCRIPT 5:RD.1 5:CR.1.10.1460.1.2.3.4.- " % (p1, acked)
+    for d in ("5:MS.1.u:p1.7;9", "5:MS.1.u:p1.7;9+MS.1.u:p1.8;9", "5:MS.1.u:p1.7;9+MS.1.u:p1.8;9+MS.1.u:p1.-",
+              "5:MS.1.u:p1.7;9+CR.2.10.1460.1.2.3.4.-+MS.2.u:p1.1;1", "5:MS.1.u:p1.7;9+RD.1+CR.1.10.1460.1.2.3.4.-",
+              "5:MS.1.u:p1.7;9+RAW.ff000800%s+MS.1.u:p1.3;4" % "01000000"):
+        yield head + d + " X 5:MS.1.u:p1.5;6"
+        yield head + "6:CR.1.10.1460.1.2.3.4.- " + d + " X"
+    # requested inside new_flow, with further creates and reports behind it in the same datagram
+    nf = "ALG - 1 PROGS p1=%s NF st,sp:p1:- OR gf:%s SCRIPT 5:RD.1 " % (p1, acked)
+    for d in ("5:CR.1.10.1460.1.2.3.4.-", "5:CR.1.10.1460.1.2.3.4.-+MS.1.u:p1.1;2", "5:CR.1.10.1460.1.2.3.4.-+CR.2.10.1460.1.2.3.4.-+MS.2.u:p1.1;2+MS.1.u:p1.-"):
+        yield nf + d + " X 5:MS.1.u:p1.5;6"
